@@ -74,6 +74,14 @@ void prop_algebra(Tape &t, Ctx &c) {
     Dense<cplx> asmS = assemble<V>(dS, n, m, rdom[me], nz, cerr_);
     bool sorted_ok = true;
     for (auto M : {dS.local(), dS.remote()}) for (size_t i = 0; i < M->nrows; ++i) for (ptrdiff_t j = M->ptr[i] + 1; j < M->ptr[i + 1]; ++j) sorted_ok = sorted_ok && M->col[j - 1] <= M->col[j];
+    // keep_src: the build-state parts must survive move_to_backend(bprm, true) unchanged and stay usable
+    DM dK(comm, tupA, cdom[me + 1] - cdom[me]);
+    dK.move_to_backend(typename B::params(), true);
+    Dense<cplx> asmK = assemble<V>(dK, n, m, rdom[me], nz, cerr_);
+    auto dKT = amgcl::mpi::transpose(dK);
+    Dense<cplx> asmKT = assemble<V>(*dKT, m, n, cdom[me], nz, cerr_);
+    auto dKP = amgcl::mpi::product(dK, dB);
+    Dense<cplx> asmKP = assemble<V>(*dKP, n, p, rdom[me], nz, cerr_);
     // spectral radius (needs the diagonal: square matrices only)
     double g0 = 0, g1 = 0, p0 = 0, p1 = 0;
     if (square) {
@@ -98,9 +106,10 @@ void prop_algebra(Tape &t, Ctx &c) {
     ab::spmv(static_cast<float>(alpha), dC, xl2, static_cast<float>(beta), y2s);
     std::vector<V> y2(yl.size()); for (size_t i = 0; i < yl.size(); ++i) y2[i] = static_cast<V>(y2s[i]);
     std::vector<V> r1(yl.size()); ab::residual(yl, dA, xl, r1);
+    std::vector<V> y3 = yl; ab::spmv(alpha, dK, xl, beta, y3);
     amgcl::mpi::inner_product ip(comm);
     V dot = ip(yl, zl);
-    std::vector<cplx> Y1 = gather_vec(y1), Y2 = gather_vec(y2), R1 = gather_vec(r1);
+    std::vector<cplx> Y1 = gather_vec(y1), Y2 = gather_vec(y2), R1 = gather_vec(r1), Y3 = gather_vec(y3);
     // collective scalars from every rank
     std::vector<double> sc = {double(gr), double(gc), double(gz), g0, g1, p0, p1, VT<V>::c(dot).real(), VT<V>::c(dot).imag(), double(t_gr), double(t_gc), double(c_gr), double(c_gc), double(c_gz)};
     std::vector<double> allsc = allgatherv(sc, MPI_DOUBLE);
@@ -129,6 +138,9 @@ void prop_algebra(Tape &t, Ctx &c) {
         Dense<cplx> DT(m, n); for (ptrdiff_t i = 0; i < n; ++i) for (ptrdiff_t j = 0; j < m; ++j) DT(j, i) = std::conj(DA(i, j));
         require_equal(asmT, DT, "mpi::transpose");
         require_equal(asmP, matmul(DA, DB), "mpi::product");
+        require_equal(asmK, DA, "build-state parts kept by move_to_backend(keep_src = true)");
+        require_equal(asmKT, DT, "mpi::transpose after move_to_backend(keep_src = true)");
+        require_equal(asmKP, matmul(DA, DB), "mpi::product after move_to_backend(keep_src = true)");
         Dense<cplx> DS = DA; for (auto &v : DS.a) v *= s;
         require_equal(asmS, DS, "mpi::scale + sort_rows");
         VF_REQUIRE(sorted_ok, "mpi::sort_rows left an unsorted row");
@@ -141,6 +153,7 @@ void prop_algebra(Tape &t, Ctx &c) {
             cplx ax = 0; for (ptrdiff_t j = 0; j < m; ++j) ax += DA(i, j) * X[j];
             VF_REQUIRE(Y1[i] == alpha * ax + beta * Y[i], "distributed spmv row " << i << ": " << Y1[i] << " vs " << alpha * ax + beta * Y[i]);
             VF_REQUIRE(Y2[i] == Y1[i], "spmv after backend copy differs at row " << i);
+            VF_REQUIRE(Y3[i] == Y1[i], "spmv after move_to_backend(keep_src = true) differs at row " << i);
             VF_REQUIRE(R1[i] == Y[i] - ax, "distributed residual row " << i << ": " << R1[i] << " vs " << Y[i] - ax);
         }
         cplx d = 0; for (ptrdiff_t i = 0; i < n; ++i) d += Y[i] * std::conj(Z[i]);
